@@ -166,6 +166,9 @@ func dumpOf(c *respc.Client) (map[string]string, error) {
 		dl := "none"
 		if e.Deadline != 0 {
 			dl = "deadline" // the second itself may differ between two processes
+			if strings.HasPrefix(string(e.Key), "snapabs:") {
+				dl = fmt.Sprint(e.Deadline) // given as an absolute time: the same number everywhere
+			}
 		}
 		b, _ := json.Marshal([]any{e.Type, e.Str, e.List, e.Set, e.Hash, e.ZSet, e.Stream, dl})
 		out[string(e.Key)] = string(b)
@@ -603,8 +606,8 @@ func main() {
 			tag := fmt.Sprintf("slow:%d:", o.Seed)
 			prep := [][]string{{"RPUSH", tag + "q", "a b", "c", "", "d"}, {"SET", tag + "n", "10"}, {"HSET", tag + "h", "f", "5"}, {"SADD", tag + "s", "m1", "m 2", "m3"}}
 			pending := [][]string{{"INCR", tag + "ctr"}, {"APPEND", tag + "str", "ab cd"}, {"RPUSH", tag + "list", "x y", ""}, {"LPOP", tag + "q"},
-				{"HINCRBY", tag + "h", "f", "3"}, {"DECRBY", tag + "n", "4"}, {"SPOP", tag + "s", "3"}, {"XADD", tag + "st", "7-1", "f", "v w"}, {"LPUSH", tag + "q", "z"}, {"INCRBYFLOAT", tag + "fl", "1.5"}}
-			probes := [][]string{{"GET", tag + "ctr"}, {"GET", tag + "str"}, {"LRANGE", tag + "list", "0", "-1"}, {"LRANGE", tag + "q", "0", "-1"}, {"HGET", tag + "h", "f"},
+				{"HINCRBY", tag + "h", "f", "3"}, {"DECRBY", tag + "n", "4"}, {"SPOP", tag + "s", "3"}, {"XADD", tag + "st", "7-1", "f", "v w"}, {"LPUSH", tag + "q2", "z"}, {"INCRBYFLOAT", tag + "fl", "1.5"}} // one key each: they are in flight together, their order is open
+			probes := [][]string{{"GET", tag + "ctr"}, {"GET", tag + "str"}, {"LRANGE", tag + "list", "0", "-1"}, {"LRANGE", tag + "q", "0", "-1"}, {"LRANGE", tag + "q2", "0", "-1"}, {"HGET", tag + "h", "f"},
 				{"GET", tag + "n"}, {"SCARD", tag + "s"}, {"XLEN", tag + "st"}, {"GET", tag + "fl"}}
 			lc, err := respc.Dial(c3.Nodes[lead-1].Addr(), 30*time.Second)
 			if err != nil {
@@ -814,6 +817,22 @@ func main() {
 					compareDumps(fmt.Sprintf("3-node cluster with snapshots every 25 entries, node %d, %s", nd.ID, label), wantDump, got, tail)
 				}
 			}
+			// keys whose deadline was given as an absolute time: every replica, whatever it went through, holds that number
+			if c0, err := respc.Dial(c3s.Nodes[0].Addr(), 30*time.Second); err == nil {
+				c0.Timeout = 8 * time.Second
+				for i := 0; i < 6; i++ {
+					cmd := respc.Cmd("SET", fmt.Sprintf("snapabs:%d", i), fmt.Sprintf("v %d", i), "EXAT", strconv.Itoa(99990000000+i*1000+int(o.Seed)))
+					if _, err := c0.DoB(cmd); err != nil {
+						uncertain = true
+						break
+					}
+					if _, err := ca.DoB(cmd); err != nil {
+						fail("standalone connection failed: " + err.Error())
+					}
+					trace = append(trace, quote(cmd))
+				}
+				c0.Close()
+			}
 			run(4, 2000000)
 			victim := 1 + int(o.Seed)%3
 			c3s.Kill(victim)
@@ -824,6 +843,7 @@ func main() {
 				}
 			}
 			run(4, 2100000)
+			time.Sleep(1200 * time.Millisecond) // the leader's newest snapshot, which the victim will be sent, has an age too
 			if err := c3s.StartNode(victim); err != nil {
 				report(witness{Kind: "crash", Detail: fmt.Sprintf("3-node cluster with snapshots: node %d does not restart: %v\n%s", victim, err, c3s.NodeLog(victim, 3000)), Sig: "crash|snapshots|restart failed"})
 				return
@@ -846,6 +866,9 @@ func main() {
 			for _, nd := range c3s.Nodes {
 				c3s.Kill(nd.ID)
 			}
+			// the snapshots the nodes come back from are more than a second old by then: whatever a snapshot stores,
+			// it must mean the same at a later time
+			time.Sleep(1200 * time.Millisecond)
 			for _, nd := range c3s.Nodes {
 				if err := c3s.StartNode(nd.ID); err != nil {
 					report(witness{Kind: "crash", Detail: fmt.Sprintf("3-node cluster with snapshots: node %d does not restart from its snapshot and log: %v\n%s", nd.ID, err, c3s.NodeLog(nd.ID, 3000)), Sig: "crash|snapshots|restart failed"})
